@@ -52,6 +52,13 @@ func (x *c3Ctx) genFetch() *c3FetchSpec {
 		used[uid] = true
 		uidFirst := sp.UID && g.p(96)
 		m := c3Msgd{Seq: seq, Items: g.items(uidFirst, uid)}
+		if uidFirst && len(m.Items) > 1 && g.p(15) {
+			// the backend writes the UID later (possibly after a literal or after 32 items)
+			j := 1 + g.n(len(m.Items)-1)
+			u := m.Items[0]
+			copy(m.Items, m.Items[1:j+1])
+			m.Items[j] = u
+		}
 		sp.Msgs = append(sp.Msgs, m)
 		if g.p(97) {
 			seq += uint32(1 + g.n(3))
@@ -279,18 +286,16 @@ func (x *c3Ctx) fetchCase(fixed *c3FetchSpec) {
 		key := m.Seq
 		if sp.UID {
 			key = 0
-			for i, it := range m.Items {
+			// the UID is written once, anywhere among the items ("all attribute combinations":
+			// the order of the Write* calls is the backend's)
+			nuid := 0
+			for _, it := range m.Items {
 				if it.Kind == "uid" {
 					key = uint32(it.N)
-					inDomain = inDomain && i == 0
-					break
+					nuid++
 				}
 			}
-			for i, it := range m.Items {
-				if it.Kind == "uid" && i > 0 {
-					inDomain = false
-				}
-			}
+			inDomain = inDomain && nuid == 1
 		}
 		inDomain = inDomain && key != 0 && !seen[key] && c3SetHas(sp.Req, key) && m.Seq != 0
 		for _, it := range m.Items {
@@ -1369,6 +1374,9 @@ func c3Corpus(x *c3Ctx) {
 	one := func(items ...*c3Item) *c3FetchSpec {
 		return &c3FetchSpec{Req: c3Set{{1, 0}}, BodyMode: 2, Msgs: []c3Msgd{{Seq: 1, Items: items}}}
 	}
+	uidf := func(items ...*c3Item) *c3FetchSpec {
+		return &c3FetchSpec{UID: true, Req: c3Set{{1, 0}}, Msgs: []c3Msgd{{Seq: 1, Items: items}}}
+	}
 	body1 := func(items ...*c3Item) *c3FetchSpec {
 		return &c3FetchSpec{Req: c3Set{{1, 0}}, BodyMode: 1, Msgs: []c3Msgd{{Seq: 1, Items: items}}}
 	}
@@ -1401,6 +1409,10 @@ func c3Corpus(x *c3Ctx) {
 		body1(&c3Item{Kind: "body", BS: &c3BS{Type: "text", Subtype: "plain", Enc: "7bit", Size: 10}}),
 		one(&c3Item{Kind: "body", BS: &c3BS{Multi: true, Subtype: "mixed", Ext: &c3Ext{}, Children: []*c3BS{
 			{Type: "text", Subtype: "plain", Size: 3, Ext: &c3Ext{}}, {Type: "image", Subtype: "png", Size: 4, Ext: &c3Ext{}}}}}),
+		// UID FETCH answered with a literal before the UID
+		uidf(&c3Item{Kind: "section", Sec: &c3Section{}, Data: []byte("hello")}, &c3Item{Kind: "uid", N: 7}),
+		uidf(&c3Item{Kind: "flags", Flags: []string{`\Seen`}}, &c3Item{Kind: "binary", Part: []int{1}, Data: []byte("ab")}, &c3Item{Kind: "uid", N: 9},
+			&c3Item{Kind: "section", Sec: &c3Section{Spec: "TEXT"}, Data: bytes.Repeat([]byte("y"), 5000)}),
 		one(&c3Item{Kind: "flags", Flags: []string{`\Seen`}}, &c3Item{Kind: "section", Sec: &c3Section{}, Data: bytes.Repeat([]byte("x"), 4097)},
 			&c3Item{Kind: "section", Sec: &c3Section{Spec: "HEADER"}, Data: []byte{}}, &c3Item{Kind: "binary", Part: []int{1, 2}, Data: []byte("\x00\xff\r\n")}),
 	}
